@@ -46,6 +46,7 @@ type Contract struct {
 	PureFrame  bool                // assigns nothing
 	Trusted    bool                // contract is assumed, not verified (must be listed in evidence)
 	Inline     bool                // verified on its own, but callers inline the body
+	SeqMode    bool                // obligations of this function are discharged with byte strings as SMT sequences
 	Mode       string              // "interference": verified with other goroutines allowed to change shared stores between calls
 	Discipline map[string][]string // ghost protocol disciplines checked on this function: name -> props
 	Effects    []*Effect
@@ -95,6 +96,7 @@ type SpecDB struct {
 	Fns          map[string]*SpecFn
 	Iface        map[string]string       // invoke name -> kind
 	Pure         map[string]bool         // extern static callees with no side effects
+	SeqDefs      map[string]*SeqDef      // definitions of uninterpreted functions that hold in sequence mode only
 	ReadonlyArgs map[string]map[int]bool // extern callees: argument positions whose reachable memory is never written
 	Files        []string
 	Errors       []string
@@ -114,10 +116,19 @@ type Lemma struct {
 	Pkg   string
 	Src   string
 	Line  string
+	Seq   bool // discharged in sequence mode
+}
+
+// SeqDef gives an uninterpreted function over byte strings its definition (used in sequence mode only).
+type SeqDef struct {
+	Name   string
+	Params []string
+	Body   *specExpr
+	Line   string
 }
 
 func NewSpecDB() *SpecDB {
-	return &SpecDB{Contracts: map[string]*Contract{}, Fns: map[string]*SpecFn{}, Iface: map[string]string{}, Pure: map[string]bool{}, ReadonlyArgs: map[string]map[int]bool{}, UFs: map[string][]string{}, GhostPreds: map[string]string{}, GhostVars: map[string]bool{}}
+	return &SpecDB{Contracts: map[string]*Contract{}, Fns: map[string]*SpecFn{}, Iface: map[string]string{}, Pure: map[string]bool{}, ReadonlyArgs: map[string]map[int]bool{}, SeqDefs: map[string]*SeqDef{}, UFs: map[string][]string{}, GhostPreds: map[string]string{}, GhostVars: map[string]bool{}}
 }
 
 var tagRe = regexp.MustCompile(`^\[([^\]]*)\]\s*`)
@@ -367,6 +378,11 @@ func (db *SpecDB) LoadSpecFile(path, pkgPath string) {
 			// lemma [props:label] forall x T, y U : formula
 			props, label, body := parseTag(rest)
 			body = strings.TrimSpace(body)
+			seqLemma := false
+			if strings.HasPrefix(body, "@seq ") {
+				seqLemma = true
+				body = strings.TrimSpace(body[5:])
+			}
 			if !strings.HasPrefix(body, "forall ") {
 				fail("lemma needs: forall vars : formula")
 				continue
@@ -376,7 +392,7 @@ func (db *SpecDB) LoadSpecFile(path, pkgPath string) {
 				fail("lemma needs ' : ' after the variables")
 				continue
 			}
-			lm := &Lemma{Label: label, Props: props, Pkg: pkgPath, Src: body, Line: where}
+			lm := &Lemma{Label: label, Props: props, Pkg: pkgPath, Src: body, Line: where, Seq: seqLemma}
 			for _, v := range strings.Split(body[len("forall "):i], ",") {
 				f := strings.Fields(v)
 				if len(f) != 2 {
@@ -423,6 +439,28 @@ func (db *SpecDB) LoadSpecFile(path, pkgPath string) {
 				}
 				db.ReadonlyArgs[f[0]][n] = true
 			}
+		case word == "seqdef":
+			// seqdef name(p1,p2,...) = expr   (expr over the parameters, cat, le64, ...)
+			i := strings.Index(rest, "(")
+			j := strings.Index(rest, ")")
+			k := strings.Index(rest, "=")
+			if i < 0 || j < i || k < j {
+				fail("seqdef syntax: seqdef name(params) = expr")
+				continue
+			}
+			sd := &SeqDef{Name: strings.TrimSpace(rest[:i]), Line: where}
+			for _, p := range strings.Split(rest[i+1:j], ",") {
+				if p = strings.TrimSpace(p); p != "" {
+					sd.Params = append(sd.Params, p)
+				}
+			}
+			se, err := parseSpecExpr(strings.TrimSpace(rest[k+1:]))
+			if err != nil {
+				fail(err.Error())
+				continue
+			}
+			sd.Body = se
+			db.SeqDefs[sd.Name] = sd
 		case word == "uf":
 			// uf name(S1,S2) S
 			i := strings.Index(rest, "(")
@@ -447,6 +485,8 @@ func (db *SpecDB) LoadSpecFile(path, pkgPath string) {
 			cur.Trusted = true
 		case word == "inline":
 			cur.Inline = true
+		case word == "seqmode":
+			cur.SeqMode = true
 		case word == "discipline":
 			// discipline [props:label] walkers-drained | locks-released | no-graph-write-while-walking
 			props, _, body := parseTag(rest)
@@ -1225,6 +1265,26 @@ func (e *Env) call(n *ast.CallExpr) Value {
 			return e.fail("sameobj needs two pointers")
 		}
 		return BoolC(a.Obj != nil && a.Obj == b.Obj)
+	case "fileexists", "filecontent":
+		k, ok := e.ex.argTerm(e.st, e.evalBytesArg(n.Args[0]))
+		if !ok || k.Sort != SB {
+			return e.fail("%s needs a path", id.Name)
+		}
+		key, sort, hint := "fs:has", ArrSort(SB, SBool), "fs_has"
+		if id.Name == "filecontent" {
+			key, sort, hint = "fs:val", ArrSort(SB, SB), "fs_val"
+		}
+		cur := e.ex.ghostArr(e.st, key, sort, hint)
+		if e.inOld {
+			if e.oldGhost != nil {
+				if v, ok := e.oldGhost[key]; ok {
+					cur = v.(*Term)
+				}
+			} else if v, ok := e.st.PreGhost[key]; ok {
+				cur = v.(*Term)
+			}
+		}
+		return Select(cur, k)
 	case "cachehas", "cacheget":
 		o := objOf(e.eval(n.Args[0]))
 		k, ok := e.ex.argTerm(e.st, e.evalBytesArg(n.Args[1]))
